@@ -42,10 +42,24 @@ def spec(engines, level="exploration", rule=NT, extra_assumptions=()):
             "assumptions": COMMON_ASSUMPTIONS + list(extra_assumptions)}
 
 
+TW_NOTE = ("typed world (engine tw): the real use_classes / class_declaration "
+           "/ method / add_function / add_definition front-end, thunks and "
+           "casts on three fixed C++ hierarchies (tree, multiple inheritance "
+           "with a base at a non-zero offset, virtual-base diamond), 20 "
+           "registration statements and 20 definitions loaded and unloaded "
+           "as images would be")
+
+
+def tw(q_runs, q_secs, t_runs, t_secs):
+    return reg("tw", q_runs, q_secs, t_runs, t_secs)
+
+
 PROPS = {
-    "C01": spec([reg("C01", 24000, 40, 4000000, 780)]),
+    "C01": spec([reg("C01", 24000, 40, 4000000, 700), tw(4000, 25, 400000, 200)],
+                extra_assumptions=[TW_NOTE]),
     "C02": spec([reg("C02", 24000, 40, 4000000, 780)]),
-    "C03": spec([reg("C03", 20000, 40, 4000000, 780)]),
+    "C03": spec([reg("C03", 20000, 40, 4000000, 700), tw(3000, 20, 300000, 150)],
+                extra_assumptions=[TW_NOTE]),
     "C04": spec([reg("C04", 20000, 40, 4000000, 780)]),
     "C05": spec([reg("C05", 10000, 40, 2000000, 600),
                  reg("hash", 1600, 30, 400000, 600)],
@@ -54,8 +68,10 @@ PROPS = {
                     "hook H1 (guarded) lets the plan choose the seed and the attempt budget of the hash search; with no plan value the shipped constants apply",
                     "the id ~0 (yomm2's invalid_type, the empty-bucket marker) is not used as a probe"]),
     "C06": spec([reg("C06", 10000, 45, 2000000, 780)]),
-    "C07": spec([reg("C07", 12000, 45, 2000000, 780)]),
-    "C08": spec([reg("C08", 16000, 45, 3000000, 780)]),
+    "C07": spec([reg("C07", 12000, 45, 2000000, 700), tw(4000, 25, 400000, 200)],
+                extra_assumptions=[TW_NOTE]),
+    "C08": spec([reg("C08", 16000, 45, 3000000, 700), tw(4000, 25, 400000, 200)],
+                extra_assumptions=[TW_NOTE]),
     "C09": spec([reg("C09", 16000, 45, 3000000, 780)]),
     "C10": spec([reg("C10", 12000, 45, 2000000, 780)]),
     "C14": spec([reg("C14", 12000, 45, 2000000, 780)]),
